@@ -249,10 +249,29 @@ class WsgiStream(Stream):
         if locs:
             from urllib.parse import urljoin
 
+            from urllib.parse import urlsplit
+
             loc = iri_to_uri(locs[-1])
+            laws = []
+            # the assumed laws of the opaque primitives (UrlLaws in Props/C05.lean), checked on
+            # the real functions for the inputs of this case
+            for u in (locs[-1], get_current_url(environ, strip_querystring=True)):
+                try:
+                    sp = urlsplit(u)
+                    if not sp.scheme.isascii():
+                        laws.append(f"urlsplit({u!r}).scheme is not ASCII")
+                    if sp.hostname and not sp.hostname.encode("idna").decode("ascii").isascii():
+                        laws.append("IDNA host is not ASCII")
+                except (ValueError, UnicodeError):
+                    pass
             if case["autocorrect"]:
-                loc = urljoin(iri_to_uri(get_current_url(environ, strip_querystring=True)), loc)
+                base = iri_to_uri(get_current_url(environ, strip_querystring=True))
+                joined = urljoin(base, loc)
+                if base.isascii() and loc.isascii() and not joined.isascii():
+                    laws.append(f"urljoin of ASCII {base!r}, {loc!r} is not ASCII")
+                loc = joined
             info["loc"] = loc
+            info["laws"] = laws
         clocs = r.headers.getlist("Content-Location")
         if clocs:
             info["cloc"] = iri_to_uri(clocs[-1])
@@ -315,6 +334,8 @@ class WsgiStream(Stream):
             if info["ctor"] == "ValueError" and (bad_init or empty_status):
                 return None
             return f"constructor raised {info['ctor']}"
+        if info.get("laws"):
+            return "assumed law of an opaque URL primitive fails: " + info["laws"][0]
         if info["dirty"] is not None:
             return f"a header value with CR/LF was stored by {info['dirty']!r}"
         code = info["status_code"]
@@ -389,7 +410,7 @@ CHECK = Check(
     modules=["WzVerif.Props.C05"],
     streams=[WsgiStream()],
     assumptions=[
-        "iri_to_uri / urljoin / get_current_url (Location, Content-Location) are opaque: the harness applies the same library calls and hands the result to the model; Location ASCII-ness is checked by the oracle on the real output (the conversion itself is C15)",
+        "Location / Content-Location: urlsplit (+ IDNA of the host), urlunsplit and urljoin are opaque parameters of location_ascii with the assumed laws UrlLaws (ASCII scheme / host out of urlsplit+IDNA; urlunsplit and urljoin map ASCII inputs to ASCII output) - checked on the real functions for every case of the stream; the quoting in between is C15's iriToUri (Props/C15.lean iriToUri_ascii); get_current_url is opaque (its result goes through iri_to_uri before urljoin, as in the code); the driver receives the converted values from the harness, which applies the same library calls",
         "str(value) of non-text header values and dump_options_header for the keyword form of add/set are applied by the caller of the model",
         "the close model is an effect log (which close actions the returned iterable's close() runs); generator finalisation is observed through inspect.getgeneratorstate",
         "known finding F05: Response(direct_passthrough=True) returns the raw iterable for non-bodyless responses, call_on_close callbacks never run",
@@ -400,8 +421,8 @@ CHECK = Check(
 )
 
 MANIFEST = {
-    "level_text": "Machine-checked Lean 4 theorems: every Headers mutator history keeps all stored values CR/LF-free and a mutator given such a value fails (atomic ones leave the list unchanged); body suppression and Content-Length stripping decided by decide +kernel over a table regenerated by exhaustively evaluating the real get_wsgi_headers / get_app_iter over status 100..599 x method x preset x body kind; computed Content-Length = bytes of the encoded items; close-exactly-once in an effect model (partial: direct passthrough excluded, F05). Model tied to the code by the wsgi-response correspondence stream; the property oracle runs on the real WSGI output.",
-    "level_note": "Trusted: Lean kernel; extract.py; harness; URL conversion of Location opaque (C15). Known finding F05.",
+    "level_text": "Machine-checked Lean 4 theorems: every Headers mutator history keeps all stored values CR/LF-free and a mutator given such a value fails (atomic ones leave the list unchanged); body suppression and Content-Length stripping decided by decide +kernel over a table regenerated by exhaustively evaluating the real get_wsgi_headers / get_app_iter over status 100..599 x method x preset x body kind; computed Content-Length = bytes of the encoded items; Location / Content-Location handed to the server are ASCII for every input (location_ascii, on top of C15's iriToUri_ascii); close-exactly-once in an effect model (partial: direct passthrough excluded, F05). Model tied to the code by the wsgi-response correspondence stream; the property oracle runs on the real WSGI output.",
+    "level_note": "Trusted: Lean kernel; extract.py; harness; urlsplit/IDNA, urlunsplit, urljoin opaque with the assumed ASCII laws (validated on every stream case), quoting = C15 model. Known finding F05.",
     "technique": "Lean 4 proof (induction over mutator histories, decide +kernel over a regenerated exhaustive table, effect-log model) + model/code correspondence",
     "design_ref": "DESIGN.md section 4, C05",
 }
